@@ -239,6 +239,17 @@ fn insertion_case(src: &mut Src, ctx: &mut Ctx) -> Result<(), String> {
         let bounds: Vec<usize> = txt.char_indices().map(|(i, _)| i).chain(std::iter::once(txt.len())).collect();
         // prefer positions inside or at the edge of a token
         let at = bounds[src.index(bounds.len())];
+        // one time in four: a multi-byte character already in the text becomes its neighbour in the code chart
+        // (same leading bytes, last byte differs): `END cafè` after `MACRO café`
+        let wide: Vec<(usize, char)> = txt.char_indices().filter(|(_, c)| c.len_utf8() > 1).collect();
+        if !wide.is_empty() && src.prob(1, 4) {
+            let (i, c) = wide[src.index(wide.len())];
+            if let Some(d) = char::from_u32(c as u32 ^ 1).filter(|d| d.len_utf8() == c.len_utf8()) {
+                txt.replace_range(i..i + c.len_utf8(), &d.to_string());
+                desc.push(format!("{:?}->{:?}@{}", c, d, i));
+                continue;
+            }
+        }
         let c = *src.pick(ODD);
         txt.insert_str(at, c);
         desc.push(format!("{:?}@{}", c, at));
@@ -367,6 +378,22 @@ fn time_text(shape: u64, n: usize) -> String {
             }
             s.push_str("END PROPERTYDEFINITIONS\n");
         }
+        10 => {
+            // an extension block of very many plain words, all on one line
+            s.push_str("BEGINEXT \"tag\" ");
+            for i in 0..n / 6 {
+                s.push_str(&format!("w{} ", i % 977));
+            }
+            s.push_str("ENDEXT\n");
+        }
+        11 => {
+            // ... and one word per line
+            s.push_str("BEGINEXT \"tag\"\n");
+            for i in 0..n / 6 {
+                s.push_str(&format!("w{}\n", i % 977));
+            }
+            s.push_str("ENDEXT\n");
+        }
         _ => {
             // long tokens: a long comment, a long name, a long polygon
             s.push_str("# ");
@@ -387,11 +414,11 @@ fn time_text(shape: u64, n: usize) -> String {
     s
 }
 fn time_case(src: &mut Src, ctx: &mut Ctx) -> Result<(), String> {
-    let shape = src.u64() % 10;
+    let shape = src.u64() % 12;
     let n = 40_000usize;
     let (a, b) = (time_text(shape, n), time_text(shape, 4 * n));
     ctx.nontrivial(hash_of(&shape));
-    let what = ["many macros", "many pins in one macro", "many rectangles in one block", "many property pairs in one statement", "many sites", "long comment, long name, long polygon", "many PROPERTY statements in one macro", "many PROPERTY statements in one pin", "many LAYER blocks in one OBS", "many property definitions"][shape as usize];
+    let what = ["many macros", "many pins in one macro", "many rectangles in one block", "many property pairs in one statement", "many sites", "long comment, long name, long polygon", "many PROPERTY statements in one macro", "many PROPERTY statements in one pin", "many LAYER blocks in one OBS", "many property definitions", "many words of an extension block on one line", "many words of an extension block, one per line"][shape as usize];
     let (pa, pb) = (crate::engine::child::scratch_path("c11.time.a.lef"), crate::engine::child::scratch_path("c11.time.b.lef"));
     std::fs::write(&pa, &a).map_err(|e| e.to_string())?;
     std::fs::write(&pb, &b).map_err(|e| e.to_string())?;
@@ -407,7 +434,7 @@ fn time_case(src: &mut Src, ctx: &mut Ctx) -> Result<(), String> {
 fn run(run: &mut Run) {
     engine::journal::set_hang_ms(30_000);
     run.rule("Base texts: 40 LEF texts rendered from generated libraries (half with lexical variation, a quarter with non-ASCII comments) + the repository's macro.lef. (i) every prefix at every character boundary; (ii) every single-token fault at every token (delete, duplicate, swap, replace by each of 27 keywords/numbers (incl. the extremes of the 96-bit decimal type)/punctuation/unterminated string); (ii-b) floods: each replacement token and 21 short phrases repeated 50 000 times at four places of a base text, read on a 2 MB stack; (iii) proptest-driven insertion of multi-byte, odd-whitespace and delimiter characters anywhere; (iv) token soup of keywords, numbers, names and arbitrary Unicode scalars; allocation scaling. Oracle: LefLibrary::open returns (panics caught; aborts and hangs caught by the supervising process with a CPU limit), also on the error-report path; an Ok library can be written and re-read without a crash. Non-trivial = faulted text differs from its base; distinct by hash of the text.");
-    run.assume("termination = returns before the hang watchdog (30 s in flight) / 20 s CPU in isolation; linear time checked as allocation volume at most doubling when the input doubles and best-of-three thread CPU time growing at most 8-fold (+20 ms) when the input quadruples, on ten text shapes");
+    run.assume("termination = returns before the hang watchdog (30 s in flight) / 20 s CPU in isolation; linear time checked as allocation volume at most doubling when the input doubles and best-of-three thread CPU time growing at most 8-fold (+20 ms) when the input quadruples, on twelve text shapes");
     run.min_nontrivial = 1000;
     run.enumerate("prefixes", *prefix_table().last().unwrap(), &prefix_case);
     run.enumerate("token-faults", *fault_table().last().unwrap(), &token_fault_case);
@@ -415,7 +442,7 @@ fn run(run: &mut Run) {
     run.explore("odd-characters", run.tier.pick(150_000, 1_500_000), 16, &insertion_case);
     run.explore("token-soup", run.tier.pick(150_000, 1_500_000), 400, &soup_case);
     run.enumerate("alloc-scaling", run.tier.pick(4, 6), &scaling_case);
-    run.enumerate("time-scaling", 10, &time_case);
+    run.enumerate("time-scaling", 12, &time_case);
 }
 fn case(sub: &str) -> Option<Box<CaseFn<'static>>> {
     match sub {
